@@ -1,5 +1,7 @@
 /-
-C08 — machine-checked counterexample for the known finding "max_iter = 1 with tridiagonals returns T = [[0]]".
+C08 — the former finding "max_iter = 1 with tridiagonals returns T = [[0]]" (fixed in /repo by be05109):
+the current model returns the right matrix; `iterateBreakFirst` is the loop of the PREVIOUS code (tolerance exit before the
+tridiagonal block), kept only to state what that code did.
 -/
 import LinOp.C08.Model
 namespace LinOp.C08.Known
@@ -21,5 +23,35 @@ def out1 : Out Rat 1 := linearCgCore ratOps params1 [sys1]
 
 def summary : Nat × Nat × Bool × List Rat × List Rat :=
   (out1.iters, out1.tSize, out1.warn, out1.t.map (fun t => t 0 0), out1.x.map (fun v => v 0))
+
+/-- The loop body of the code BEFORE be05109: the tolerance `break` came first, the tridiagonal block after it. -/
+def iterateBreakFirst {α : Type} [Add α] [Sub α] [Mul α] [Div α] [Neg α] [Zero α] [One α]
+    (N : NumOps α) (P : Params α) {n : Nat} (sys : List (SysZ α n)) (nTriIter : Nat) :
+    Nat → Nat → St α n → St α n
+  | 0, _, st => st
+  | fuel + 1, k, st =>
+    let ps := st.cs.map fun ct => ct.1.p
+    let cs1 := stepCols N P sys st.cs
+    let st1 : St α n := { st with cs := cs1, iters := st.iters + 1, trace := ps :: st.trace }
+    if stopNow N P nTriIter k (cs1.map fun ct => ct.1.rn) then
+      { st1 with tolReached := true }
+    else if decide (0 < P.nTridiag) && decide (k < nTriIter) && st.updTri then
+      let cs2 := triCols N k cs1
+      let off := decide (k ≠ 0) && N.lt (lmax N (offDiags k cs2)) P.triOff
+      iterateBreakFirst N P sys nTriIter fuel (k + 1) { st1 with cs := cs2, lastTri := k, updTri := !off }
+    else
+      iterateBreakFirst N P sys nTriIter fuel (k + 1) st1
+
+/-- the loop state `linear_cg` starts from on `sys1` -/
+def st0 : St Rat 1 :=
+  { cs := [(initCol ratOps params1 sys1 (prep ratOps params1 sys1), { (emptyTri : Tri Rat) with on := true })],
+    updTri := true, lastTri := 0, tolReached := false, iters := 0, trace := [] }
+
+def sysz1 : List (SysZ Rat 1) := [(sys1, (prep ratOps params1 sys1).isZero)]
+
+/-- (iterations, tolerance reached, last_tridiag_iter, T[0,0]) of a loop function on the 1×1 system -/
+def loopSummary (it : Nat → Nat → St Rat 1 → St Rat 1) : Nat × Bool × Nat × List Rat :=
+  let st := it 1 0 st0
+  (st.iters, st.tolReached, st.lastTri, st.cs.map fun ct => ct.2.t 0 0)
 
 end LinOp.C08.Known
